@@ -232,7 +232,7 @@ def options_present(chk, eng):
 
 def run(chk):
     eng = Engine(hooks=codec_hooks())
-    chk.assume("A: floats are mathematical reals (dt.timestamp()*1000 and ms/1000 are exact); float rounding of int(dt.timestamp()*1000) is outside the model")
+    chk.assume("A: ms / 1000 in from_unix_millis is exact (a float division; datetime.fromtimestamp rounds to microseconds); to_unix_millis is integer arithmetic (C20.timestamp.exact_millis)")
     chk.assume("S: datetime.fromtimestamp(t, tz=UTC).timestamp() == t; datetimes are timezone-aware (instants compared)")
     chk.assume("S: copy.deepcopy yields a structurally equal, unshared copy of dict/list structures")
     chk.assume("inputs are well-typed instances of the declared field types (implicit precondition); enum .value / Enum(value) are inverse (read from the source members)")
